@@ -1,4 +1,6 @@
 import MpVerif.C01.ModelProp
+import MpVerif.C01.ModelGadgets
+import MpVerif.Gen.C01Decisions
 import MpVerif.Gen.C01Context
 import MpVerif.Gen.C01PropDown
 import MpVerif.Gen.C01Bodies
@@ -11,6 +13,9 @@ import MpVerif.Gen.C01Bodies
   each argument group (translators/gen_propdown.py).  `C01_gen_propdown_*`: the set of overloads and their rules are the ones the
   model's `prop*` functions were written against (`expectedOverloads`, which names the Lean rule per overload), and for the rules
   that are a fixed context expression the Lean rule is proved equal to the *interpretation* of the generated entry.
+* `Gen/C01Decisions.lean` — source-text translation of two decision functions: which constraint `RangeConstraintConverter::Convert`
+  emits (`Relate`, `Convert`, `ConvertWithRhs`) and which directions `BasicFuncConstrCvt::Convert` converts, in which order
+  (translators/gen_rangedec.py).  `C01_gen_range_decision`, `C01_gen_dispatch_*`: the Lean `gRangeLin` / `needNeg` / `needPos` agree.
 * `Gen/C01Bodies.lean` — digests of the converter function bodies the Lean gadgets mirror.  `C01_gen_bodies`: unchanged since the
   gadgets were written/validated against them; any edit of such a body breaks this obligation (re-read, update model + table).
 -/
@@ -178,5 +183,47 @@ def expectedDigests : List (String × String) := [
 ]
 
 theorem C01_gen_bodies : C01Bodies.digests = expectedDigests := by rfl
+
+/-! ## (iv) decision functions translated from the source text -/
+
+/-- what a range conversion produced, read off the output -/
+def rangeKind (o : Out) : String :=
+  match o.cons, o.vars with
+  | [.linRhs .eq _ _], [_] => "range"
+  | [.linRhs .eq _ _], [] => "EQ"
+  | [.linRhs .ge _ _], [] => "GE"
+  | [.linRhs .le _ _], [] => "LE"
+  | [], [] => "none"
+  | _, _ => "?"
+
+/-- `lb != ub` on extended reals (an infinite bound differs from everything else that can occur here) -/
+def boundsDiffer : Option Rat → Option Rat → Bool
+  | some l, some u => l != u
+  | _, _ => true
+
+theorem C01_gen_range_decision (body : Lin) (lb ub : Option Rat) (n : Nat) :
+    rangeKind (gRangeLin body lb ub n) = C01Decisions.rangeDecision (boundsDiffer lb ub) lb.isSome ub.isSome := by
+  cases lb with
+  | none => cases ub <;> simp [gRangeLin, rangeKind, boundsDiffer, C01Decisions.rangeDecision]
+  | some l =>
+    cases ub with
+    | none => simp [gRangeLin, rangeKind, boundsDiffer, C01Decisions.rangeDecision]
+    | some u =>
+      by_cases h : l = u
+      · subst h; simp [gRangeLin, rangeKind, boundsDiffer, C01Decisions.rangeDecision]
+      · have hne : (l != u) = true := by simp [h]
+        simp [gRangeLin, rangeKind, boundsDiffer, C01Decisions.rangeDecision, hne, h]
+
+theorem C01_gen_relate_order : C01Decisions.relateOrder = ["neq", "lbFin", "ubFin"] := by rfl
+
+theorem C01_gen_dispatch_neg (ctx : Ctx) (logical : Bool) (rv : VarInfo) :
+    needNeg ctx logical rv = C01Decisions.dispatchNeg ctx.eff.hasNeg (if logical then optLT rv.lb 1 else true) := by
+  rfl
+theorem C01_gen_dispatch_pos (ctx : Ctx) (logical : Bool) (rv : VarInfo) :
+    needPos ctx logical rv = C01Decisions.dispatchPos ctx.eff.hasPos (if logical then optGT rv.ub 0 else true) := by
+  rfl
+/-- the negative part is converted first (auxiliary variables of the positive part are numbered after it), as `dispatch` does -/
+theorem C01_gen_dispatch_order : C01Decisions.negFirst = true := by rfl
+
 
 end MpVerif.C01
